@@ -18,16 +18,17 @@ def prepare(ctx):
 
 
 class Case:
-    __slots__ = ("id", "w", "t", "opts", "tag", "pos", "inner", "model", "go", "crash", "io", "chunk")
+    __slots__ = ("id", "w", "t", "opts", "tag", "pos", "inner", "model", "go", "crash", "io", "chunk", "tz")
 
-    def __init__(self, w, t, opts, tag, pos="top", inner=None, io=""):
+    def __init__(self, w, t, opts, tag, pos="top", inner=None, io="", tz=0):
         self.w, self.t, self.opts, self.tag, self.pos, self.inner = w, t, opts, tag, pos, inner
         self.model, self.go, self.crash = None, None, None
         self.chunk = None
         self.io = io      # "" | "reader" (stream decoder, buffer refilled afterwards) | "overwrite" (input slice reused)
+        self.tz = tz      # offset (seconds east) of the fixed zone installed as time.Local for this case and its oracle answers
 
     def to_replay_json(self):
-        return {"w": wire_to_json(self.w), "t": self.t, "opts": self.opts.go(), "tag": self.tag, "pos": self.pos, "io": self.io,
+        return {"w": wire_to_json(self.w), "t": self.t, "opts": self.opts.go(), "tag": self.tag, "pos": self.pos, "io": self.io, "tz": self.tz,
                 "chunk": self.chunk if self.chunk is not None else getattr(self, "id", 0) % 9}
 
 
@@ -74,7 +75,7 @@ def wire_to_json(w):
 def case_from_replay(d):
     o = d["opts"]
     c = Case(_wire_from_json(d["w"]), d["t"], G.Opts(o["simple"], o["long"], o["real"], o["simap"], o["structval"], o["listslice"]),
-             d.get("tag", "replay"), d.get("pos", "top"), io=d.get("io", ""))
+             d.get("tag", "replay"), d.get("pos", "top"), io=d.get("io", ""), tz=d.get("tz", 0))
     c.chunk = d.get("chunk")
     return c
 
@@ -172,6 +173,51 @@ def build_cases(ctx, env):
             cases.append(Case(c.w, c.t, default, "io-overwrite:" + c.w[0], pos=c.pos, io="overwrite"))
     for c in [c for c in cases if c.opts is refopt and c.tag.startswith("refs:")]:
         cases.append(Case(c.w, c.t, refopt, "io-reader:" + c.w[0], io="reader"))
+    # strings over every UTF-8 lead-byte class in every string position: destinations that take text, element / key /
+    # value / field positions, class and field names, reference mode, and the stream decoder (chunks split characters)
+    text_types = [G.T("string"), G.BYTES, G.IFACE, G.Reg("MyStr"), G.Ptr(G.T("string")), G.T("int"), G.T("bigint"), G.T("time")]
+    for b in G.UTF8_STRINGS + ([] if quick else G.UTF8_LEADS):
+        w = ("s", b)
+        for t in text_types[:3] if b in G.UTF8_LEADS else text_types:
+            cases.append(Case(w, t, default, "utf8:s"))
+            cases.append(Case(w, t, refopt, "utf8-ref:s"))
+            cases.append(Case(w, t, default, "utf8-reader:s", io="reader"))
+        for it in (G.T("string"), G.IFACE):
+            for pname, w2, t2 in positions(w, it):
+                cases.append(Case(w2, t2, default, "utf8-pos:" + pname, pos=pname, inner=(w, it)))
+        # as a map key next to itself by reference, as an unknown field name, as a class name
+        cases.append(Case(("m", [w, ("dig", 1), ("s", b"k"), ("r", 1)]), G.Map(G.T("string"), G.IFACE), refopt, "utf8-key:s"))
+        cases.append(Case(("m", [w, w]), G.Map(G.IFACE, G.IFACE), default, "utf8-key:s"))
+        cases.append(Case(("c", b"Inner", [b"x", b, b"y"], ("o", 0, [("dig", 1), w, ("s", b"why")])), G.Reg("Inner"), default, "utf8-field:s"))
+        cases.append(Case(("c", b"Inner", [b"x", b, b"y"], ("o", 0, [("dig", 1), w, ("s", b"why")])), G.IFACE, default, "utf8-field:s"))
+        cases.append(Case(("c", b, [b"x"], ("o", 0, [("dig", 1)])), G.IFACE, default, "utf8-class:s"))
+        cases.append(Case(("c", b, [b"x"], ("o", 0, [("dig", 1)])), G.Map(G.T("string"), G.IFACE), refopt, "utf8-class:s"))
+    for b in G.UTF8_CHARS:
+        w = ("u", b)
+        for t in text_types + [G.T("uint16"), G.T("bool")]:
+            cases.append(Case(w, t, default, "utf8:u"))
+            cases.append(Case(w, t, default, "utf8-reader:u", io="reader"))
+        for pname, w2, t2 in positions(w, G.T("string")):
+            cases.append(Case(w2, t2, default, "utf8-pos:" + pname, pos=pname, inner=(w, G.T("string"))))
+    # local zones with an offset: every time token (and the numbers and strings that convert to times) into the time
+    # destinations with time.Local at +05:00 and -09:30; the oracle answers (unix, tstr, ptime) are taken in the same zone
+    time_toks = [w for w in toks if w[0] in ("D", "DT", "T")]
+    time_toks += [("i", 0), ("i", 86400), ("l", 1600000000123456789), ("d", b"1.5"), ("s", b"2020-01-02 03:04:05"),
+                  ("s", b"2020-01-02T03:04:05Z"), ("s", b"15:04:05"), ("s", b"2020-01-02T03:04:05+07:00"), ("e",), ("n",)]
+    time_types = [G.T("time"), G.Ptr(G.T("time")), G.IFACE, G.T("string"), G.Slice(G.T("time")), G.Map(G.T("string"), G.T("time")),
+                  G.Map(G.T("time"), G.T("int"))]
+    for tz in (18000, -34200):
+        for w in time_toks:
+            for t in time_types:
+                if t["k"] == "slice":
+                    w2 = ("a", [w, w])
+                elif t["k"] == "map":
+                    w2 = ("m", [("u", b"k"), w]) if t["key"]["k"] == "string" else ("m", [w, ("dig", 1)])
+                else:
+                    w2 = w
+                cases.append(Case(w2, t, default, "tz:" + w[0], tz=tz))
+            cases.append(Case(("a", [w, ("r", 1)]), G.Slice(G.IFACE), refopt, "tz-ref:" + w[0], tz=tz))
+            cases.append(Case(("a", [w, ("r", 1)]), G.Slice(G.T("string")), refopt, "tz-ref:" + w[0], tz=tz))
     # random structured values: types of depth <= 3 and wire trees shaped by them
     rg = G.RandGen(rng, env["structs"])
     for i in range(1500 if quick else 40000):
@@ -202,26 +248,35 @@ def corpus_cases():
 
 # ---------------------------------------------------------------------------------------- execution
 
-def _go_oracle(env, queries):
-    qs = sorted(q for q in queries if q not in env["oracle"])
+def _table(env, tz):
+    """The oracle answers obtained with time.Local at that offset (unix, tstr and ptime depend on it)."""
+    if not tz:
+        return env["oracle"]
+    return env.setdefault("oracle_tz", {}).setdefault(tz, {})
+
+
+def _go_oracle(env, queries, tz=0):
+    tab = _table(env, tz)
+    qs = sorted(q for q in queries if q not in tab)
     if not qs:
         return
     send = []
     for i in range(0, len(qs), 2000):
         chunk = qs[i:i + 2000]
-        send.append({"id": i + 1, "op": "orc", "q": [[f.hex(), a.hex()] for f, a in chunk]})
+        send.append({"id": i + 1, "op": "orc", "tz": tz, "q": [[f.hex(), a.hex()] for f, a in chunk]})
     rc, obs, err = hv.run_harness("c06", send, timeout=600)
     if rc != 0:
         raise hv.EnvError("oracle executor failed: " + err[-500:])
     for s, o in zip(send, obs):
         for (f, a), r in zip(s["q"], o.get("r", [])):
-            env["oracle"][(bytes.fromhex(f), bytes.fromhex(a))] = bytes.fromhex(r)
+            tab[(bytes.fromhex(f), bytes.fromhex(a))] = bytes.fromhex(r)
 
 
 def _model_line(env, c, extra, go=None):
     names = G.struct_names(c.t, set()) | set(env["registered"])
     qs = G.oracle_queries(c.w) | extra
-    orc = " ".join("(x%s x%s x%s)" % (f.hex(), a.hex(), env["oracle"][(f, a)].hex()) for f, a in sorted(qs) if (f, a) in env["oracle"])
+    tab = _table(env, c.tz)
+    orc = " ".join("(x%s x%s x%s)" % (f.hex(), a.hex(), tab[(f, a)].hex()) for f, a in sorted(qs) if (f, a) in tab)
     return "(case %s %s (type %s) (wire %s) (orc %s)%s)" % (
         c.opts.sexp(env["registered"]), G.tenv_sexp(env["structs"], names), G.type_sexp(c.t), G.wire_sexp(c.w), orc,
         " (go %s)" % go if go else "")
@@ -240,16 +295,17 @@ def _kv(line):
 
 def execute(ctx, env, cases):
     # oracle tables for every text that occurs in the streams
-    qs = set()
+    qs = {}
     for c in cases:
-        qs |= G.oracle_queries(c.w)
-    _go_oracle(env, qs)
+        qs.setdefault(c.tz, set()).update(G.oracle_queries(c.w))
+    for tz in sorted(qs):
+        _go_oracle(env, qs[tz], tz)
     extra = {c.id: set() for c in cases}
     todo = list(cases)
     for rnd in range(8):
         lines = [_model_line(env, c, extra[c.id]) for c in todo]
         outs = hv.run_model("c06", lines) if lines else []
-        again, need = [], set()
+        again, need = [], {}
         for c, out in zip(todo, outs):
             c.model = _kv(out) if not out.startswith("MODEL-ERROR") else {"out": "modelerror", "msg": out[:200]}
             miss = None
@@ -263,11 +319,12 @@ def execute(ctx, env, cases):
                     c.model = {"out": "modelerror", "msg": "oracle entry rejected: %r" % (q,), "hex": c.model.get("hex", "")}
                     continue
                 extra[c.id].add(q)
-                need.add(q)
+                need.setdefault(c.tz, set()).add(q)
                 again.append(c)
         if not again:
             break
-        _go_oracle(env, need)
+        for tz in sorted(need):
+            _go_oracle(env, need[tz], tz)
         todo = again
     send = []
     for c in cases:
@@ -277,6 +334,8 @@ def execute(ctx, env, cases):
         if c.io:
             d["io"] = c.io
             d["chunk"] = c.chunk if c.chunk is not None else c.id % 9
+        if c.tz:
+            d["tz"] = c.tz
         d.update(c.opts.go())
         send.append(d)
     obs_by_id, crashes = hv.run_harness_resilient("c06", send, timeout=1800, max_crashes=60)
@@ -470,10 +529,10 @@ def judge(ctx, env, cases, verbose=False):
     plain = {}
     for c in cases:
         if not c.io and c.go:
-            plain[(G.wire_sexp(c.w), G.type_sexp(c.t), c.opts.key())] = (go_class(c), c.go.get("val"))
+            plain[(G.wire_sexp(c.w), G.type_sexp(c.t), c.opts.key(), c.tz)] = (go_class(c), c.go.get("val"))
     for c in cases:
         if c.io and c.go and c.model.get("mv"):
-            p = plain.get((G.wire_sexp(c.w), G.type_sexp(c.t), c.opts.key()))
+            p = plain.get((G.wire_sexp(c.w), G.type_sexp(c.t), c.opts.key(), c.tz))
             if p is not None and p != (go_class(c), c.go.get("val")) and (c.model.get("gv") or c.model.get("mv")) in ("ok", "unspec"):
                 c.model["gv"] = "wrongvalue"
     for c in cases:
@@ -485,7 +544,7 @@ def judge(ctx, env, cases, verbose=False):
             unmodelled[c.model.get("why", m)] = unmodelled.get(c.model.get("why", m), 0) + 1
             ctx.bump("unmodelled")
             continue
-        canon = c.io + c.opts.key() + "|" + G.type_sexp(c.t) + "|" + G.wire_sexp(c.w)
+        canon = c.io + c.opts.key() + ("@%d" % c.tz if c.tz else "") + "|" + G.type_sexp(c.t) + "|" + G.wire_sexp(c.w)
         ctx.count_case(canon, nontrivial=(c.w[0] not in ("n",)))
         ctx.sample("%s <- %s : %s" % (G.type_sexp(c.t), c.model.get("hex"), c.model.get("val") or m))
         if verbose:
@@ -504,11 +563,11 @@ def judge(ctx, env, cases, verbose=False):
     tops = {}
     for c in cases:
         if c.pos == "top" and c.go and not c.io:
-            tops[(G.wire_sexp(c.w), G.type_sexp(c.t), c.opts.key())] = c
+            tops[(G.wire_sexp(c.w), G.type_sexp(c.t), c.opts.key(), c.tz)] = c
     for c in cases:
         if c.inner is None or c.io or not c.go or c.inner[0][0] == "n":
             continue
-        top = tops.get((G.wire_sexp(c.inner[0]), G.type_sexp(c.inner[1]), c.opts.key()))
+        top = tops.get((G.wire_sexp(c.inner[0]), G.type_sexp(c.inner[1]), c.opts.key(), c.tz))
         if top is None:
             continue
         tv = top.go.get("val") or ""
